@@ -361,19 +361,20 @@ func (s *SwapService) OnTxConfirmed(swapId string, txHex string, gotErr error) e
 		return err
 	}
 
+	// The swap data belongs to the state machine: everything the watcher reports
+	// is handed over as event context and applied while the lock of the swap is
+	// held.
+
 	// First check if we got an error!
 	if gotErr != nil {
-		swap.Data.LastErr = err
-		log.Infof("[%s]: got an error from the txwatcher, cancel swap: %v", swapId, err)
-		done, _ := swap.SendEvent(Event_ActionFailed, nil)
+		log.Infof("[%s]: got an error from the txwatcher, cancel swap: %v", swapId, gotErr)
+		done, _ := swap.SendEvent(Event_ActionFailed, &txWatcherErrorContext{err: gotErr})
 		if done {
 			s.RemoveActiveSwap(swap.SwapId.String())
 		}
 	}
 
-	// todo move to eventctx
-	swap.Data.OpeningTxHex = txHex
-	done, err := swap.SendEvent(Event_OnTxConfirmed, nil)
+	done, err := swap.SendEvent(Event_OnTxConfirmed, &txConfirmedContext{txHex: txHex})
 	if err == ErrEventRejected {
 		return nil
 	} else if err != nil {
@@ -384,6 +385,30 @@ func (s *SwapService) OnTxConfirmed(swapId string, txHex string, gotErr error) e
 	}
 	return nil
 }
+
+// txConfirmedContext hands the confirmed opening transaction to the swap.
+type txConfirmedContext struct {
+	txHex string
+}
+
+func (c *txConfirmedContext) ApplyToSwapData(data *SwapData) error {
+	data.OpeningTxHex = c.txHex
+	return nil
+}
+
+func (c *txConfirmedContext) Validate(data *SwapData) error { return nil }
+
+// txWatcherErrorContext hands an error of the tx watcher to the swap.
+type txWatcherErrorContext struct {
+	err error
+}
+
+func (c *txWatcherErrorContext) ApplyToSwapData(data *SwapData) error {
+	data.LastErr = c.err
+	return nil
+}
+
+func (c *txWatcherErrorContext) Validate(data *SwapData) error { return nil }
 
 // OnCsvPassed sends the csvpassed event to the corresponding swap
 func (s *SwapService) OnCsvPassed(swapId string) error {
